@@ -166,7 +166,9 @@ func (s *MultiEventSyncer) getSyncedUntil(ctx context.Context) (int64, error) {
 	status, err := s.getSyncStatus(ctx)
 	if err != nil {
 		if err == pgx.ErrNoRows {
-			return int64(s.SyncStartBlockNumber), nil
+			// Nothing has been synced yet: the first block to sync is the configured
+			// start block itself, like in RegistrySyncer and SequencerSyncer.
+			return int64(s.SyncStartBlockNumber) - 1, nil
 		}
 		return 0, err
 	}
